@@ -394,7 +394,7 @@ let exec_proto (toks : string list) (side : string list) : string =
          | None -> "err bad-gamma"))
   | ["ktoproto"; p; k] -> let (_, s) = get_sk k in Hashtbl.replace psketches p (pb_of_sketch s); "ok"
   | ["kpobs"; p] -> pb_sketch_str (Hashtbl.find psketches p)
-  | ["kpscale"; p; _] -> Hashtbl.remove psketches p; "ok"      (* the edited message is not modelled further; the sketches it came from are values *)
+  | ["kpscale"; p; f] -> Hashtbl.replace psketches p (M.pb_sketch_scale (f64_of_hex f) (Hashtbl.find psketches p)); "ok"      (* Wire/ProtoEdit.v: the edited message stays modelled *)
   | ["kstream"; b; k] ->
     let (_, s) = get_sk k in
     let ib = side_bytes side in Hashtbl.replace bytesr b ib;
